@@ -33,7 +33,8 @@ theorem rel_unmarked (p : Parser) (A : Abs) (h : Rel p A) (hp : A.sc.pend = fals
 
 theorem stashRest_eq (p : Parser) (s : Bool) (h : p.stash.length + (rest p).length < stashSize)
     (hu : p.eolp = false) :
-    (stashRest p s).1 = { p with stash := p.stash ++ unesc (rest p), sentinel := 0, eolp := s } := by
+    (stashRest p s).1 =
+      { p with stash := p.stash ++ unesc (rest p), sentinel := 0, eolp := s, bix := p.buf.length } := by
   unfold stashRest
   have hl := unesc_length (rest p)
   unfold rest at h hl ⊢
@@ -49,11 +50,11 @@ theorem takeLine_eq (p : Parser) (e : Nat) (h : p.stash.length + e < stashSize) 
   unfold rest at hl this ⊢
   rw [esccpy_eq _ _ (by omega)]
 
-/-- what is known of a parser that reported `need more data`, and of its automaton state -/
+/-- what is known of a parser that reported `need more data`, and of its automaton state: the buffer is used
+up (`BI = p->bsz` in the stash branch), so the pre-examination of a marked stash reads 0 behind it -/
 structure Post (p : Parser) (A : Abs) : Prop where
   rel : Rel p A
-  line : lineEnd (rest p) ≠ none
-  sp : isFold ((rest p).headD 0) = true → A.sc.sp = true
+  done : rest p = []
   inv : Inv A
 
 /-- the rest of the buffer is a piece of one line: it is stashed -/
@@ -68,24 +69,13 @@ theorem stash_spec (p : Parser) (A : Abs) (h : Pre p A) (hp : A.sc.pend = false)
     have := h.inv.2.1; rw [← h.rel.stash] at this
     unfold stashSize; omega
   rw [stashRest_eq p _ hlen (rel_unmarked p A h.rel hp), hrun]
-  refine ⟨⟨⟨?_, h.rel.comp, h.rel.log, ?_⟩, ?_, ?_, ?_⟩, rfl⟩
+  refine ⟨⟨⟨?_, h.rel.comp, h.rel.log, ?_⟩, ?_, ?_⟩, rfl⟩
   · show p.stash ++ unesc (rest p) = A.cur ++ unesc (rest p)
     rw [h.rel.stash]
   · show b = true ↔ (runSc A.sc (rest p)).pend = true
     rw [hsc.1]
-  · show lineEnd (rest p) ≠ none
-    rw [hl]; simp
-  · show isFold ((rest p).headD 0) = true → (runSc A.sc (rest p)).sp = true
-    intro hf
-    cases hr : rest p with
-    | nil => rw [hr] at hf; simp [isFold, SP, TAB] at hf
-    | cons c r =>
-      rw [hr] at hf hl
-      have hf : isFold c = true := hf
-      rw [lineEnd_cons_ne _ _ (isFold_ne_nl c hf)] at hl
-      rw [runSc_cons, stepSc_not_pend _ _ hp]
-      exact (seg_runSc _ r (plainSc A.sc c) b (Nat.le_refl _) hl
-        (by rw [plainSc_pend_ne _ _ (isFold_ne_nl c hf)]; exact hp)).2.2 (plainSc_sp_fold _ _ hf)
+  · show List.drop p.buf.length p.buf = []
+    exact List.drop_length
   · have := runA_inv A (rest p) h.inv
     rw [hrun] at this; exact this
 
